@@ -5,6 +5,14 @@ control skeleton), exhaustive TLC runs on the property section, TLC-generated
 behaviours replayed on the real filters (harness/c17), the recorded events
 validated by TLC against spec/trace/FiltersTrace.tla (monitor decides,
 strict reports drift).  The trace is validated in parallel shards.
+
+The clock epoch is an environment of NtimedFilter.Do: the specification has
+one action per Epoch() read and a clock step that may land between them
+(NStepInDo).  TLC explores all placements and generates the schedules "a
+clock step lands after the k-th Epoch() read of the j-th Do"; the harness
+replays them with a registered clock whose Epoch() is scripted per read and
+records what the reads returned; the trace specification replays every
+recorded call through the same actions.
 """
 import copy
 import os
@@ -14,7 +22,7 @@ from concurrent.futures import ThreadPoolExecutor
 import vlib
 
 MON = ("RRule", "RUnconf", "RRawWhen", "RHistIndep")
-STRICT = ("SLucky", "SLReset", "SNtimed", "SNState")
+STRICT = ("SLucky", "SLReset", "SNtimed", "SNReads", "SNState")
 
 
 def _cfg(ctx, name, tracefile, invs):
@@ -63,15 +71,62 @@ def _validate(ctx, tag, part, invs, timeout, heap):
                 pass
 
 
+def _ghosts(recs):
+    """Mirror of the ghosts of the property section (since, amb -> the allowed readings of
+    'the samples seen since') along recorded Ntimed events.  Yields (index, record, cands,
+    sep) for every ns record; sep = what began the current 'since' (creation | Reset |
+    epoch-change | step-in-Do).  Statistics, signatures and self-checks only - no verdict."""
+    since, amb, sep = (), (), "creation"
+    for i, r in enumerate(recs):
+        ev = r["ev"]
+        if ev == "nnew":
+            since, amb, sep = (), (), "creation"
+        elif ev == "nr":
+            since, amb, sep = (), (), "Reset"
+        elif ev == "ne":
+            since, amb, sep = (), (), "epoch-change"
+        elif ev == "ns":
+            c0 = {since, amb + since}
+            cands = {c + (r["id"],) for c in c0}
+            if r["ks"]:
+                cands.add((r["id"],))
+                sep = "step-in-Do"
+            yield i, r, cands, sep
+            if r["ks"]:
+                since, amb = (), (r["id"],)
+            else:
+                since = since + (r["id"],)
+
+
+def _ghosts_memo(recs):
+    """_ghosts plus the mirror of the trace specification's memo (per group): known = every
+    allowed reading of this output's samples-since was shown earlier in the group under an
+    unambiguous reading, i.e. the history-independence clause judges this output."""
+    memo, gi = set(), 0
+    for i, r, cands, sep in _ghosts(recs):
+        while gi < i:
+            if recs[gi]["ev"] == "ngroup":
+                memo = set()
+            gi += 1
+        known = all(c in memo for c in cands)
+        yield i, r, cands, sep, known
+        if not known and len(cands) == 1:
+            memo |= cands
+
+
 def _judged_stats(recs):
     """Which recorded events the monitor actually judges (mirrors the ghosts of the
     trace specification; statistics only, no verdict)."""
     st = dict(lucky_runs=0, lucky_samples=0, rule_judged=0, rule_judged_multi=0, unconf_judged=0,
-              ntimed_runs=0, ntimed_groups=0, ntimed_samples=0, raw_cnt=0, raw_inb=0, hist_pairs=0,
-              branches={}, nolog=0)
+              ntimed_runs=0, ntimed_refs=0, ntimed_groups=0, ntimed_samples=0, raw_cnt=0, raw_inb=0, hist_pairs=0,
+              branches={}, nolog=0,
+              # the interleaving dimension: Do calls inside which a clock step landed, outputs judged
+              # under two or three readings of "seen since", and how
+              indo_calls=0, indo_between_reads=0, multi_reading_outputs=0, multi_reading_pairs=0,
+              multi_reading_raw=0, reads_per_do={})
     nontrivial = set()      # indices of runs with a non-degenerate judged output
     run = -1
-    cap, lastn, since, memo = 0, [], (), set()
+    cap, lastn = 0, []
     for r in recs:
         ev = r["ev"]
         if ev == "lnew":
@@ -91,32 +146,66 @@ def _judged_stats(recs):
                 if len(lastn) > 1:
                     st["rule_judged_multi"] += 1
                     nontrivial.add(run)
-        elif ev == "ngroup":
+    runix = {}
+    for i, r in enumerate(recs):
+        if r["ev"] == "ngroup":
             st["ntimed_groups"] += 1
-            memo = set()
-        elif ev == "nnew":
+        elif r["ev"] == "nnew":
             run += 1
             st["ntimed_runs"] += 1
-            since = ()
-        elif ev in ("nr", "ne"):
-            since = ()
-        elif ev == "ns":
-            st["ntimed_samples"] += 1
-            since = since + (r["id"],)
-            if since in memo:
-                st["hist_pairs"] += 1
-                nontrivial.add(run)
-            memo.add(since)
-            if len(since) <= 3:
-                st["raw_cnt"] += 1
-            elif r["inb"]:
-                st["raw_inb"] += 1
-                nontrivial.add(run)
-            if r["logok"]:
-                st["branches"][str(r["br"])] = st["branches"].get(str(r["br"]), 0) + 1
-            else:
-                st["nolog"] += 1
+            if r["role"] == "ref":
+                st["ntimed_refs"] += 1
+        runix[i] = run
+    for i, r, cands, sep, known in _ghosts_memo(recs):
+        st["ntimed_samples"] += 1
+        k = str(len(r["q"]))
+        st["reads_per_do"][k] = st["reads_per_do"].get(k, 0) + 1
+        if r["ks"]:
+            st["indo_calls"] += 1
+            if any(0 < x < len(r["q"]) for x in r["ks"]):
+                st["indo_between_reads"] += 1
+        multi = len(cands) > 1
+        if multi:
+            st["multi_reading_outputs"] += 1
+        if known:
+            st["hist_pairs"] += 1
+            nontrivial.add(runix[i])
+            if multi:
+                st["multi_reading_pairs"] += 1
+        if all(len(c) <= 3 for c in cands):
+            st["raw_cnt"] += 1
+            if multi:
+                st["multi_reading_raw"] += 1
+        elif r["inb"]:
+            st["raw_inb"] += 1
+            nontrivial.add(runix[i])
+            if multi:
+                st["multi_reading_raw"] += 1
+        if r["logok"]:
+            st["branches"][str(r["br"])] = st["branches"].get(str(r["br"]), 0) + 1
+        else:
+            st["nolog"] += 1
     return st, nontrivial
+
+
+def _sched_stats(cases):
+    """SPEC side: how the generated behaviours exercise the interleaving dimension."""
+    g = dict(behaviours=0, with_step_in_do=0, steps_in_do=0, by_reads_before={}, step_then_more_samples=0)
+    for c in cases:
+        if c["m"] != "ntimed":
+            continue
+        g["behaviours"] += 1
+        hit = False
+        for j, e in enumerate(c["ev"]):
+            for k in e.get("st") or []:
+                hit = True
+                g["steps_in_do"] += 1
+                g["by_reads_before"][str(k)] = g["by_reads_before"].get(str(k), 0) + 1
+                if j + 1 < len(c["ev"]) and c["ev"][j + 1]["t"] == "s":
+                    g["step_then_more_samples"] += 1
+        if hit:
+            g["with_step_in_do"] += 1
+    return g
 
 
 def run(ctx):
@@ -125,15 +214,22 @@ def run(ctx):
     # thread per core and they spend their time in the kernel (measured 3x slower)
     os.environ["JAVA_TOOL_OPTIONS"] = (os.environ.get("JAVA_TOOL_OPTIONS", "") + " -XX:ParallelGCThreads=2").strip()
     # 1. design level: the property section of Filters.tla, exhaustively (small scope)
-    r = ctx.tlc("FiltersMC", "Filters_exh.cfg" if q else "Filters_deep.cfg", timeout=900, tag="lucky-exh")
+    # (the Ntimed configurations let a clock step land inside Do after 0, 1 or 2 Epoch() reads, several per behaviour)
+    ctx.specdir()
+    with ThreadPoolExecutor(max_workers=2) as ex:
+        f1 = ex.submit(ctx.tlc, "FiltersMC", "Filters_exh.cfg" if q else "Filters_deep.cfg", workers=4, timeout=900,
+                       tag="lucky-exh")
+        f2 = ex.submit(ctx.tlc, "FiltersMC", "Filters_nexh.cfg" if q else "Filters_ndeep.cfg", workers=4, timeout=900,
+                       tag="ntimed-exh")
+        r, r2 = f1.result(), f2.result()
     ctx.log("TLC lucky exhaustive: %d distinct states (%ss)" % (r["distinct"], r["wall_s"]))
-    r = ctx.tlc("FiltersMC", "Filters_nexh.cfg" if q else "Filters_ndeep.cfg", timeout=900, tag="ntimed-exh")
-    ctx.log("TLC ntimed skeleton exhaustive: %d distinct states (%ss)" % (r["distinct"], r["wall_s"]))
+    ctx.log("TLC ntimed skeleton exhaustive, clock steps inside Do: %d distinct states (%ss)" % (r2["distinct"], r2["wall_s"]))
 
     # 2. spec -> code: TLC enumerates the behaviours
-    gens = ["Filters_gen.cfg", "Filters_ngen.cfg"] if q else \
-           ["Filters_gen3.cfg", "Filters_gendeep.cfg", "Filters_ngendeep.cfg"]
-    with ThreadPoolExecutor(max_workers=3) as ex:
+    # (n*gen: resets / clock steps between calls; ni*gen: one clock step inside a Do, at every place)
+    gens = ["Filters_gen.cfg", "Filters_ngen.cfg", "Filters_nigen.cfg"] if q else \
+           ["Filters_gen3.cfg", "Filters_gendeep.cfg", "Filters_ngendeep.cfg", "Filters_nigendeep.cfg"]
+    with ThreadPoolExecutor(max_workers=4) as ex:
         outs = list(ex.map(lambda c: ctx.tlc("FiltersMC", c, workers=1, timeout=1500, tag="gen:" + c), gens))
     cases = []
     for g in outs:
@@ -143,6 +239,12 @@ def run(ctx):
     ctx.log("TLC generated %d lucky and %d ntimed behaviours" % (nl, nn))
     if nl < 5000 or nn < 5000:
         raise vlib.Inconclusive("behaviour generator produced only %d/%d behaviours" % (nl, nn))
+    # vacuity guard of the interleaving dimension, on the SPEC side (what was generated, not how the code reacted)
+    sched = _sched_stats(cases)
+    ctx.log("generated schedules of clock steps inside Do: %s" % sched)
+    if sched["with_step_in_do"] < 2000 or sched["step_then_more_samples"] < 1000 or \
+            len([k for k in sched["by_reads_before"] if k != "0"]) < 2:
+        raise vlib.Inconclusive("behaviour generator does not exercise clock steps inside Do: %s" % sched)
     cp = ctx.path("cases.ndjson")
     vlib.write_ndjson(cp, cases)
 
@@ -156,10 +258,10 @@ def run(ctx):
         raise vlib.Inconclusive("driver recorded nothing")
 
     # 4. code -> spec: monitor decides, strict reports drift
-    target = 45000 if q else 240000
+    target = max(45000, len(recs) // 8 + 1) if q else 240000     # quick: one wave of <= 8 shards
     shards = _shards(recs, target)
     heap = "2g" if q else "4g"
-    par = 6
+    par = 8 if q else 6
 
     def work(ix):
         part = shards[ix]
@@ -178,6 +280,12 @@ def run(ctx):
     def selfcheck(kind):
         if kind == "lucky":
             i0 = next((i for i, r in enumerate(recs) if r["ev"] == "lnew" and r["cap"] == 3 and r["src"] == "gen"), 0)
+        elif kind == "ntimed-indo":
+            # a group in which a clock step landed inside a Do call
+            # (and was followed by another call: that one's output has two readings of "seen since")
+            i0 = next((i for i, r in enumerate(recs[:-1]) if r["ev"] == "ns" and r["ks"] and recs[i + 1]["ev"] == "ns"), 0)
+            while i0 > 0 and recs[i0]["ev"] != "ngroup":
+                i0 -= 1
         else:
             i0 = next((i for i, r in enumerate(recs) if r["ev"] == "ngroup"), 0)
         part = copy.deepcopy(recs[i0:i0 + 3000])
@@ -196,13 +304,21 @@ def run(ctx):
                         hit = i
                         break
         else:
-            # first sample of a twin run (fresh filter): its pair is already in the memo
-            for i, r in enumerate(part):
-                if i > 100 and r["ev"] == "ns" and part[i - 1]["ev"] == "nnew" and part[i - 2]["ev"] != "ngroup":
-                    if kind == "ntimed-pair":
+            for i, r, cands, _, known in _ghosts_memo(part):
+                if kind == "ntimed-indo":
+                    # an output judged under more than one reading of "seen since": equal to none of them
+                    if r["role"] == "main" and known and len(cands) > 1:
                         r["o"] = [r["o"][0], r["o"][1], r["o"][2] ^ 1]
-                    else:
-                        r["err"] = r["tol"] + 1      # first sample since creation: must be raw
+                        hit = i
+                        break
+                elif kind == "ntimed-pair":
+                    # an output of the behaviour itself whose samples-since were shown by a reference run
+                    if i > 100 and r["role"] == "main" and known:
+                        r["o"] = [r["o"][0], r["o"][1], r["o"][2] ^ 1]
+                        hit = i
+                        break
+                elif i > 100 and part[i - 1]["ev"] == "nnew":
+                    r["err"] = r["tol"] + 1      # first sample since creation: must be raw
                     hit = i
                     break
         if hit is None:
@@ -214,7 +330,7 @@ def run(ctx):
 
     with ThreadPoolExecutor(max_workers=par) as ex:
         futs = [ex.submit(work, i) for i in range(len(shards))]
-        scs = [ex.submit(selfcheck, k) for k in ("lucky", "ntimed-pair", "ntimed-raw")]
+        scs = [ex.submit(selfcheck, k) for k in ("lucky", "ntimed-pair", "ntimed-raw", "ntimed-indo")]
         results = [f.result() for f in futs]
         sc = dict(f.result() for f in scs)
     ctx.log("corrupted-field self-check: %s" % sc)
@@ -237,36 +353,21 @@ def run(ctx):
             sig = "C17 %s LuckyPacketFilter.Do %s" % (inv, "unconfigured" if bad and bad["cap"] == 0 else "configured")
             what = "real LuckyPacketFilter output violates %s (cap=%s pick=%s): %s" % (
                 inv, bad and bad["cap"], bad and bad["k"], bad)
-        elif inv == "RRawWhen":
-            cnt = 0
-            for e in reversed(hist):
-                if e["ev"] == "ns":
-                    cnt += 1
-                elif e["ev"] in ("nr", "ne", "nnew"):
-                    break
-            cls = "first-three" if cnt <= 3 else "within-bounds"
-            sig = "C17 RRawWhen NtimedFilter.Do %s" % cls
-            what = "real NtimedFilter output is not the raw offset (%s sample since reset, err=%s ns > tol=%s ns): %s" % (
-                cnt, bad and bad["err"], bad and bad["tol"], bad)
         else:
-            # the separator that precedes, in the group's first run, the samples this output must depend on only
-            sep = "creation"
-            grp = hist
-            firsts = [i for i, e in enumerate(grp) if e["ev"] == "nnew"]
-            main = grp[firsts[0]:firsts[1]] if len(firsts) > 1 else grp
-            seg = []
-            for e in reversed(hist):
-                if e["ev"] == "ns":
-                    seg.append(e["id"])
-                else:
-                    break
-            first_id = seg[-1] if seg else None
-            for i, e in enumerate(main):
-                if e["ev"] == "ns" and e["id"] == first_id and i > 0:
-                    sep = {"nr": "Reset", "ne": "epoch-change"}.get(main[i - 1]["ev"], "creation")
-                    break
-            sig = "C17 RHistIndep NtimedFilter after-%s" % sep
-            what = "real NtimedFilter output depends on samples seen before the last reset / clock step: %s" % bad
+            # the readings of "seen since" allowed for this output, and what began them
+            cands, sep = {()}, "creation"
+            for _, r, cs, sp in _ghosts(hist):
+                cands, sep = cs, sp
+            lens = sorted(len(c) for c in cands)
+            if inv == "RRawWhen":
+                cls = "first-three" if lens[-1] <= 3 else "within-bounds"
+                sig = "C17 RRawWhen NtimedFilter.Do %s%s" % (cls, " after-step-in-Do" if sep == "step-in-Do" else "")
+                what = "real NtimedFilter output is not the raw offset (%s sample(s) seen since %s, err=%s ns > tol=%s ns): %s" % (
+                    "/".join(str(x) for x in lens), sep, bad and bad["err"], bad and bad["tol"], bad)
+            else:
+                sig = "C17 RHistIndep NtimedFilter after-%s" % sep
+                what = ("real NtimedFilter output depends on samples seen before the last reset / clock step "
+                        "(allowed readings of the samples seen since: %s): %s" % (sorted(cands), bad))
         ctx.violation(sig, what, dict(invariant=inv, event=bad, history=hist))
 
     for kind, okk in sc.items():
@@ -282,18 +383,37 @@ def run(ctx):
         raise vlib.Inconclusive("monitor coverage too small: %s" % st)
     ex_samples = [r for r in recs if r.get("src") == "example"][:6]
     i1 = next(i for i, r in enumerate(recs) if r["ev"] == "ngroup")
+    i2 = next((i for i, r in enumerate(recs) if r["ev"] == "ns" and r["ks"]), i1)
+    ctx.notes.append(
+        "interleaving dimension (a clock step lands inside NtimedFilter.Do, before / between / after its Epoch() reads): "
+        "SPEC side: TLC explored every placement exhaustively (Filters_nexh/ndeep: StepAt 0..2, up to %s steps inside Do "
+        "calls per behaviour) and generated %d Ntimed behaviours, %d of them with a clock step inside a Do (%d steps; by "
+        "number of reads before the step: %s; %d followed by further samples). "
+        "CODE side: %s Do calls had a schedule, %s steps landed inside a Do (%s between two Epoch() reads of one Do), "
+        "%s scheduled places were not reached by the code (step performed after the call returned); Epoch() reads per Do: "
+        "%s; %d outputs were judged under more than one allowed reading of 'seen since' (%d of them by the "
+        "history-independence clause, %d by the raw-offset clause). The lucky packet filter made %s clock calls "
+        "(Epoch/Now): the dimension does not exist for it."
+        % ("3" if q else "4", sched["behaviours"], sched["with_step_in_do"], sched["steps_in_do"],
+           dict(sorted(sched["by_reads_before"].items())), sched["step_then_more_samples"],
+           dstats.get("sched_dos", "?"), dstats.get("indo_steps", "?"), dstats.get("between_reads", "?"),
+           dstats.get("after_return", "?"), dict(sorted(st["reads_per_do"].items())),
+           st["multi_reading_outputs"], st["multi_reading_pairs"], st["multi_reading_raw"],
+           dstats.get("lucky_clock_calls", "?")))
     ctx.cov.update(
         evaluations=len(recs), distinct_nontrivial=len(nontrivial),
         rule="events recorded from the real filters: TLC-enumerated behaviours (lucky: every history of MaxEv events "
              "with pairwise distinct delays for cap,pick in 1..3 and the zero value, under offset/delay embeddings; "
-             "ntimed: every sequence of sample classes (failLo,failHi) / Reset / epoch change of MaxEv events, "
-             "each with its fresh-filter twins), seeded random histories, the repository's 7 example inputs; "
+             "ntimed: every sequence of sample classes (failLo,failHi) / Reset / epoch change of MaxEv events, and "
+             "every such sequence (3 classes) with one clock step inside a Do call after its k-th Epoch() read, "
+             "each preceded by its fresh-filter reference runs), seeded random histories (with clock steps inside "
+             "Do calls), the repository's 7 example inputs; "
              "distinct_nontrivial = histories with at least one output judged by a non-degenerate monitor clause "
              "(median rule on a window of >= 2 distinct delays, unconfigured raw, in-bounds raw beyond the 3rd "
              "sample, or a metamorphic pair)",
         traces_validated_against_impl=runs if bad_shards == 0 else 0,
-        exhaustive=True, judged=st, driver=dstats, shards=len(shards),
-        samples=ex_samples + recs[1000:1004] + recs[i1:i1 + 6])
+        exhaustive=True, judged=st, driver=dstats, shards=len(shards), generated_schedules=sched,
+        samples=ex_samples + recs[1000:1004] + recs[i1:i1 + 6] + recs[i2:i2 + 2])
     ctx.assumptions += [
         "lucky packet: comparison with the selection rule only for windows with pairwise distinct round-trip delays "
         "(as the property states); ties are covered by strict mode only",
@@ -302,6 +422,14 @@ def run(ctx):
         "nested by >= 1 us in all earlier ones since the reset, or all identical); float rounding tolerance 1 ns + 1e-9 relative",
         "ntimed history independence: bitwise equal outputs for equal sample sequences since the last Reset / epoch "
         "change / creation, within groups of runs over the same concrete timestamps",
+        "a sample whose Do call was in progress when the clock was stepped may count as seen before or since the step "
+        "(the statement does not say): an output is judged under every such reading and must satisfy the clause under "
+        "one of them (history independence) / is required to be raw only if every reading requires it; samples of "
+        "calls that returned before the step never count as since, samples of calls entered after it always do",
+        "NtimedFilter.Do and Reset of one filter are not called concurrently (one goroutine per filter in the service); "
+        "the concurrency modelled is the clock being stepped by another goroutine between the filter's Epoch() reads, "
+        "replayed deterministically by a registered clock whose Epoch() is scripted per read; a step placed after the "
+        "last read of a call is performed after the call has returned",
         "offset embeddings a*v+b commute with the filter (inexact inverse images are skipped and counted: %s)"
         % dstats.get("lucky_inexact", "?"),
         "small scope: cap, pick <= 3 and <= 5 events in TLC; cap <= 8, pick <= 10, <= 30 events in seeded random histories",
